@@ -399,6 +399,15 @@ def one(run, idx, kind, kw, sample, kq, bq, act):
         run.inconclusive_("%s: folded_call undecided (%s)" % (tag, v))
       else:
         ob.result = solve.Result("unsat", {}, time.time() - t0, "z3-real+uf")
+  # ---- clause 1b (unfolding): the plain layer that convert_folded_layer_to_unfolded builds, given kernel K' and bias B', computes
+  #      conv(x, q_k(K')) + q_b(B') [+ activation] with the *folded layer's* quantizers - so that, loaded with the folded weights (as
+  #      unfold_model's weight transfer does), it is the folded layer's inference function (clause 1)
+  try:
+    unfold_clause(run, idx, P, tag, rep, kind, kw)
+  except Exception as e:  # pylint: disable=broad-except
+    import traceback
+    traceback.print_exc()
+    run.inconclusive_("%s: unfolding clause failed: %r" % (tag, e))
   # ---- clause 2: get_folded_weights() equals the property's formulas, over the reals ----------------------------------
   b2 = ir.Builder()
   tf_ = P.trace(P.f_folded, b2)
@@ -438,6 +447,145 @@ def one(run, idx, kind, kw, sample, kq, bq, act):
       run.inconclusive_("%s: conv_bn undecided (%s)" % (tag, v))
 
 
+def unfold_clause(run, idx, P, tag, rep, kind, kw):
+  import tensorflow as tf
+  from qkeras import bn_folding_utils as BU
+  with shim(kind):
+    U = BU.convert_folded_layer_to_unfolded(P.layer)
+  U.build((None,) + P.sample)
+  attrs = layers.weight_attrs(U)
+  shapes_u = layers.weight_shapes(U)
+  kshape = P.shapes[1]
+  C = P.channels
+  if len(attrs) != 2 or shapes_u != [tuple(kshape), (C,)]:
+    run.violation(dict(clause="unfold_layer", what="weights", **sig_cfg(kind, kw)), dict(cfg=tag, unfolded_weights=[list(s) for s in shapes_u], expected=[list(kshape), [C]]),
+                  dict(clause="unfold_layer", **rep))
+    return
+  names = ["x", "K", "B"]
+  shapes = [(1,) + P.sample, tuple(kshape), (C,)]
+  f_u = layers.inject_call(U, attrs)
+
+  def f_ref(x, K, B):
+    L = P.layer
+    kq = getattr(L, P.spec["kqi"])
+    fk = kq(K) if P.has_kq else K
+    fb = L.bias_quantizer_internal(B) if P.has_bq else B
+    S = P.stock
+    object.__setattr__(S, "_kernel" if hasattr(S, "_kernel") else "kernel", fk)
+    object.__setattr__(S, "bias", fb)
+    y = S.call(x)
+    return L.activation(y) if P.has_act else y
+  b = ir.Builder()
+  ta = layers.MultiTraced(f_u, names, shapes, b)
+  tb = layers.MultiTraced(f_ref, names, shapes, b)
+  ob = solve.Obligation("%s_%04d_unfold" % (PROP, idx), "", meta=dict(cfg=tag, clause="unfold_layer"), solver="equiv")
+  run.obls.append(ob)
+  if equiv.structural(ta.out, tb.out):
+    ob.result = solve.Result("unsat", {}, 0.0, "hash-consing")
+    ob.smt = "(structural) output terms identical"
+    return
+  rs = np.random.RandomState(idx + 11)
+  for s in (0.5, 1.5):
+    ts = [(rs.randn(*sh) * s).astype(np.float32) for sh in shapes]
+    a, r = eager(f_u, ts), eager(f_ref, ts)
+    run.concrete_checks += 1
+    if differs(a, r):
+      ob.result = solve.Result("sat", {}, 0.0, "probe+replay")
+      ob.smt = "(concrete probe)"
+      run.violation(dict(clause="unfold_layer", what="function", **sig_cfg(kind, kw)), dict(cfg=tag, unfolded_out=a[0].tolist(), reference_out=r[0].tolist()),
+                    dict(clause="unfold_layer", inputs=[t.tolist() for t in ts], **rep))
+      return
+  # not the identical computation and no probe separates them: exact-arithmetic equality with abstracted quantizers is not
+  # available for the plain layer (its quantizers are applied inside its own call); undecided
+  ob.result = solve.Result("unknown", {}, 0.0, "hash-consing")
+  run.inconclusive_("%s: unfolded layer is not term-identical to the reference and no probe separates them" % tag)
+
+
+E2E = [
+    ("conv", dict(filters=2, kernel_size=2, use_bias=True, folding_mode="ema_stats_folding"), (4, 4, 1), "quantized_bits(4,0,1,alpha=1)", "quantized_bits(6,2,1,alpha=1)", None),
+    ("conv", dict(filters=2, kernel_size=2, use_bias=False, folding_mode="batch_stats_folding", padding="same"), (3, 3, 2), "ternary(alpha=1)", None, "quantized_relu(4,1)"),
+    ("conv", dict(filters=1, kernel_size=1, use_bias=True, folding_mode="ema_stats_folding", scale=False), (3, 3, 2), None, None, None),
+    ("dw", dict(kernel_size=2, depth_multiplier=1, use_bias=True, folding_mode="ema_stats_folding"), (4, 4, 2), "quantized_bits(4,0,1,alpha=1)", "quantized_bits(6,2,1,alpha=1)", None),
+    ("dw", dict(kernel_size=2, depth_multiplier=2, use_bias=False, folding_mode="batch_stats_folding", center=False), (3, 3, 1), "quantized_po2(4)", None, None),
+]
+
+
+def unfold_e2e(run):
+  """auxiliary (concrete): the real unfold_model on one-layer models with random trained-like statistics: same predictions, and the
+  plain layer's weights are exactly the folded weights"""
+  import tensorflow as tf
+  from .. import legacy_keras
+  added = legacy_keras.install()
+  run.aux["legacy_keras_stubs"] = added or run.aux.get("legacy_keras_stubs", [])
+  keras = layers.K3()
+  n = 0
+  for ci, (kind, kw, sample, kq, bq, act) in enumerate(E2E):
+    spec = KINDS[kind]
+    qkw = dict(kw)
+    if kq is not None:
+      qkw[spec["kq"]] = kq
+    if bq is not None:
+      qkw["bias_quantizer"] = bq
+    if act is not None:
+      qkw["activation"] = act
+    tag = "unfold_model %s(%s)" % (spec["cls"], ",".join("%s=%r" % kv for kv in sorted(qkw.items())))
+    rep = dict(clause="unfold_model", index=ci)
+    try:
+      ok, detail = _unfold_once(ci)
+    except Exception as e:  # pylint: disable=broad-except
+      run.violation(dict(clause="unfold_model_raises", kind=kind), dict(cfg=tag, error=repr(e)[:300]), rep)
+      continue
+    run.concrete_checks += 1
+    n += 1
+    if ok:
+      run.violation(dict(clause="unfold_model", kind=kind), dict(cfg=tag, **detail), rep)
+    run.configs.append(tag)
+  run.aux["unfold_model_runs"] = n
+
+
+def _unfold_once(ci):
+  import importlib
+  import tensorflow as tf
+  from .. import legacy_keras
+  legacy_keras.install()
+  keras = layers.K3()
+  kind, kw, sample, kq, bq, act = E2E[ci]
+  spec = KINDS[kind]
+  qkw = dict(kw, name="folded")
+  if kq is not None:
+    qkw[spec["kq"]] = kq
+  if bq is not None:
+    qkw["bias_quantizer"] = bq
+  if act is not None:
+    qkw["activation"] = act
+  rs = np.random.RandomState(100 + ci)
+  with shim(kind):
+    Q = importlib.import_module("qkeras")
+    BU = importlib.import_module("qkeras.bn_folding_utils")
+    i = keras.Input(sample, name="in")
+    L = getattr(Q, spec["cls"])(**qkw)
+    y = L(i)
+    m = keras.Model(i, y)
+    ch = int(y.shape[-1])
+    bn = L.batchnorm
+    bn.build(tuple(y.shape))
+    bn.gamma = tf.Variable(rs.rand(ch).astype(np.float32) + 0.5) if bn.scale else None
+    bn.beta = tf.Variable(rs.randn(ch).astype(np.float32)) if bn.center else None
+    bn.moving_mean = tf.Variable(rs.randn(ch).astype(np.float32))
+    bn.moving_variance = tf.Variable(rs.rand(ch).astype(np.float32) + 0.1)
+    L.set_weights([(rs.randn(*w.shape) * 0.5).astype(np.float32) for w in L.get_weights()])
+    u = BU.unfold_model(m)
+    x = rs.randn(3, *sample).astype(np.float32)
+    a = np.asarray(L.call(tf.constant(x), training=False))
+    b = np.asarray(u(x))
+    fw = [np.asarray(w) for w in L.get_folded_weights()]
+    uw = u.layers[-1].get_weights()
+  classes = [type(z).__name__ for z in u.layers]
+  bad_w = len(uw) != 2 or not all(np.array_equal(p, q) for p, q in zip(fw, uw))
+  bad = (not np.array_equal(a, b)) or bad_w or classes[-1] not in ("QConv2D", "QDepthwiseConv2D")
+  return bad, dict(classes=classes, max_abs_diff=float(np.abs(a - b).max()) if a.shape == b.shape else None, weights_equal_folded=not bad_w)
+
+
 def abstract_equal(run, idx, P, meta):
   """both sides re-traced with the quantizers / activation replaced by uninterpreted tensor functions"""
   import tensorflow as tf
@@ -467,6 +615,11 @@ def abstract_equal(run, idx, P, meta):
 
 
 def replay_concrete(rep):
+  if rep["clause"] in ("unfold_model", "unfold_model_raises"):
+    try:
+      return _unfold_once(rep["index"])
+    except Exception as e:  # pylint: disable=broad-except
+      return True, dict(error=repr(e)[:300])
   kind, kw, sample = rep["kind"], rep["kw"], tuple(rep["sample"])
   if rep["clause"] == "construct":
     try:
@@ -483,6 +636,30 @@ def replay_concrete(rep):
     except Exception as e:  # pylint: disable=broad-except
       return True, dict(error=repr(e)[:300], inputs=[t.tolist() for t in ts])
   ts = [np.asarray(t, dtype=np.float32) for t in rep["inputs"]]
+  if rep["clause"] == "unfold_layer":
+    import tensorflow as tf
+    from qkeras import bn_folding_utils as BU
+    with shim(kind):
+      U = BU.convert_folded_layer_to_unfolded(P.layer)
+    U.build((None,) + P.sample)
+    shapes_u = layers.weight_shapes(U)
+    if "inputs" not in rep:
+      return shapes_u != [tuple(P.shapes[1]), (P.channels,)], dict(unfolded_weights=[list(s) for s in shapes_u])
+    ts = [np.asarray(t, dtype=np.float32) for t in rep["inputs"]]
+    f_u = layers.inject_call(U, layers.weight_attrs(U))
+
+    def f_ref(x, K, B):
+      L = P.layer
+      kq = getattr(L, P.spec["kqi"])
+      fk = kq(K) if P.has_kq else K
+      fb_ = L.bias_quantizer_internal(B) if P.has_bq else B
+      S = P.stock
+      object.__setattr__(S, "_kernel" if hasattr(S, "_kernel") else "kernel", fk)
+      object.__setattr__(S, "bias", fb_)
+      y = S.call(x)
+      return L.activation(y) if P.has_act else y
+    a, r = eager(f_u, ts), eager(f_ref, ts)
+    return differs(a, r), dict(got=[x.tolist() for x in a], want=[x.tolist() for x in r])
   fa, fb = {"folded_call": (P.f_call, P.f_ref_quantized), "folded_formula": (P.f_folded, P.f_formula), "conv_bn": (P.f_call, P.f_conv_bn)}[rep["clause"]]
   a, r = eager(fa, ts), eager(fb, ts)
   return differs(a, r), dict(got=[x.tolist() for x in a], want=[x.tolist() for x in r])
@@ -503,18 +680,29 @@ def run(tier, seed):
       import traceback
       traceback.print_exc()
       r.inconclusive_("harness error on %s %s: %r" % (kind, kw, e))
+  try:
+    unfold_e2e(r)
+  except Exception as e:  # pylint: disable=broad-except
+    import traceback
+    traceback.print_exc()
+    r.inconclusive_("harness error in unfold_e2e: %r" % (e,))
   obls = [o for o in r.obls if not o.twin]
   r.aux.update(programs=len(r.configs), equivalences_structural=sum(1 for o in obls if o.result is not None and o.result.solver == "hash-consing"
                                                                     and o.result.verdict == "unsat"))
-  r.functions = ["QConv2DBatchnorm.__init__/build/call/get_folded_weights", "QDepthwiseConv2DBatchnorm.__init__/build/call/get_folded_weights"]
+  r.functions = ["QConv2DBatchnorm.__init__/build/call/get_folded_weights", "QDepthwiseConv2DBatchnorm.__init__/build/call/get_folded_weights",
+                 "bn_folding_utils.convert_folded_layer_to_unfolded", "bn_folding_utils.unfold_model (auxiliary, concrete)"]
   r.bounds = ["%d (layer type, geometry, folding mode, use_bias/center/scale, quantizer assignment) instances; one input sample of 9..18 elements; "
               "kernel, bias, gamma, beta, moving mean and moving variance all symbolic" % len(r.configs),
               "inference mode only (training=False); ema_freeze_delay None or a positive integer with the iteration counter at its initial value",
               "clause folded_call is exact (identical floating-point terms) when decided by term identity, otherwise exact-arithmetic with the "
               "quantizers abstracted; clauses folded_formula and conv_bn are equalities over the REALS (rounding is outside the claim): "
               "sqrt/rsqrt are characterised by s*s = a, r*r*a = 1; moving_variance >= 0",
-              "NOT covered: unfold_model, convert_to_folded_model, model_quantize(enable_bn_folding) - they clone models through the legacy Keras "
-              "functional API and abort under the pinned Keras 3; training-mode behaviour"]
+              "unfolding: per configuration the plain layer built by convert_folded_layer_to_unfolded, with symbolic kernel K' and bias B', is proved "
+              "(term identity) to compute conv(x, q_k(K')) + q_b(B') [+ activation] with the folded layer's quantizers and geometry; the real "
+              "unfold_model is additionally run on %d one-layer models with random statistics (auxiliary, concrete: same predictions, plain "
+              "weights = folded weights; legacy Keras attributes stubbed)" % len(E2E),
+              "NOT covered: convert_to_folded_model / model_quantize(enable_bn_folding) (conv+BN -> folded conversion), training-mode behaviour, "
+              "multi-layer and branched models for unfold_model"]
   r.assumptions = ["environment stub: tensorflow.keras.layers.BatchNormalization is replaced, inside the two folded-layer modules only and only while "
                    "the check runs, by BNShim (the legacy-Keras attribute surface the layers use; contract in vf/props/c15.py); under the pinned "
                    "Keras 3 the real class rejects the legacy arguments and the layers cannot be constructed at all",
